@@ -20,9 +20,9 @@ from . import lri as L
 SIGMA = {('LRI', 'dom'), ('LRI', 'val'), ('LRI', 'size'), ('LRI', '_anchor'), ('LRI', '_link_lookup'),
          ('Link', '0'), ('Link', '1'), ('Link', '2'), ('Link', '3'),
          ('LinkLookup', 'dom'), ('LinkLookup', 'val'), ('LinkLookup', 'size')}
-HELPERS_REQUIRE_HELD = set(L.HELPERS) | {'LRI._init_ll'}
+HELPERS_REQUIRE_HELD = set(L.HELPERS) | {'LRI._init_ll', 'LRI._get_flattened_ll'}
 LOCKING = {'LRI.__setitem__', 'LRI.__getitem__', 'LRU.__getitem__', 'LRI.__delitem__', 'LRI.pop', 'LRI.popitem',
-           'LRI.clear', 'LRI.setdefault', 'LRI.update', 'LRI.__eq__', 'LRI.get', 'LRI.copy'}
+           'LRI.clear', 'LRI.setdefault', 'LRI.update', 'LRI.__eq__', 'LRI.get', 'LRI.copy', 'LRI.__len__'}
 
 
 class GuardHooks(L.LockHooks):
@@ -61,8 +61,9 @@ class GuardHooks(L.LockHooks):
     def field_access(self, eng, st, ref, field, mode, node):
         if (ref.cls.name, field) not in SIGMA:
             return
-        if ref.cls.name == 'LRI' and str(z3.simplify(ref.t)) in st.held.get('fresh', ()):
-            return      # an object still under construction is not shared yet
+        owner = ref if ref.cls.name == 'LRI' else st.locals.get('self')
+        if isinstance(owner, SRef) and str(z3.simplify(owner.t)) in st.held.get('fresh', ()):
+            return      # an object still under construction (and its links) is not shared yet
         key = self.owner_key(eng, st, ref)
         eng.oblige('assert', 'guarded-by G1: protected state accessed only under the lock', st,
                    z3.BoolVal(st.held.get(key, 0) >= 1), node)
@@ -163,9 +164,12 @@ eq = Contract('LRI.__eq__', setup=S_other, requires=ANY, ensures=ANY, modifies=N
 copy = Contract('LRI.copy', setup=L.S(), requires=ANY, ensures=ANY, modifies=None, variants=['LRI', 'LRU'],
                 raises={'Exception': ANY})
 init = Contract('LRI.__init__', inline=True)
+# reads the whole ring: a helper that requires the lock; its result (a list of pairs) is opaque here
+flat = Contract('LRI._get_flattened_ll', requires=ANY, ensures=ANY, modifies=lambda c: [],
+                returns=lambda c: SVal(c.st.fresh.const('flattened', Val)))
 
 CONTRACTS = dict(L.CONTRACTS)
-for _c in [update, eq, copy, init]:
+for _c in [update, eq, copy, init, flat]:
     CONTRACTS[_c.qualname] = _c
 
 TARGETS = list(L.PUBLIC) + [('LRI.update', ['LRI', 'LRU']), ('LRI.__eq__', ['LRI', 'LRU']), ('LRI.copy', ['LRI', 'LRU'])]
